@@ -72,8 +72,10 @@ def request(k, v, std=4):
                 obj = r is not None
             finally:
                 execs = len(dev.calls)
-        elif k == "facade_bs0":
-            s, dev = _facade("sbc", 0)
+        elif k in ("facade_bs0", "facade_bs_reset"):
+            s, dev = _facade("sbc", 0 if k == "facade_bs0" else 512)
+            if k == "facade_bs_reset":
+                s.blocksize = 0
             data = bytearray(0)
             try:
                 r = [lambda: s.read10(1, 1), lambda: s.read12(1, 1), lambda: s.read16(1, 1),
@@ -165,8 +167,10 @@ def run(chk, replay=None):
     rng = random.Random(chk.seed)
     extra = []
     for _ in range(60 if chk.quick else 60000):
-        k = rng.choice(["prin_sa", "opcode_ctor", "xcopy_seg_type", "xcopy_cscd_type"])
-        v = rng.randint(0, 255) if k != "prin_sa" else rng.choice([rng.randint(0, 31), rng.randint(32, 2 ** 20)])
+        k = rng.choice(["prin_sa", "opcode_ctor", "xcopy_seg_type", "xcopy_cscd_type", "facade_bs_reset"])
+        v = rng.randint(0, 255) if k != "prin_sa" else rng.choice([rng.randint(0, 31), rng.randint(32, 2 ** 20), -rng.randint(1, 40)])
+        if k == "facade_bs_reset":
+            v = rng.randint(0, 8)
         if k == "prin_sa" and v > 65536:
             v = 65536
         std = rng.choice((4, 5))
